@@ -297,8 +297,9 @@ def state_index(ctx):
         for kw in lab:
             dv = derives(f.node, kw.value)
             ok = mp in dv.params or dv.has_call("get_modes")
-            positional = dv.has_call("range") and not (mp in dv.params)
-            ctx.ob(rule, f.site, ok and not positional, "" if ok else "mode labels do not derive from the selected modes",
+            positional = dv.has_call("range") or dv.has_call("len") or dv.has_call("enumerate")
+            ctx.ob(rule, f.site, ok and not positional, "" if ok and not positional else
+                   "mode labels are positions / do not derive from the selected mode indices",
                    role="labels", line=kw.value.lineno)
     # Fock: axes are positional among active modes; the label of position j is get_modes()[j]
     f = ctx.tree.func("backends/fockbackend/backend.py", "FockBackend.state")
